@@ -1570,7 +1570,6 @@ func stripAsserts(s *Sym) *Sym {
 	return rec(s, false)
 }
 
-
 // resolveAnyCalls replaces every anycall(name) of the table term by the unique call of that function in the code term.
 func resolveAnyCalls(want, got *Sym) (*Sym, error) {
 	names := map[string]bool{}
@@ -1653,7 +1652,6 @@ func symFieldOf(x *Sym, path string) *Sym {
 	}
 	return out
 }
-
 
 // variantsOf: candidate strings built from a set of literals: each literal, with a prefix / suffix, case-flipped, truncated,
 // separator-like literals repeated, and concatenations of pairs (a string can satisfy two substring tests at once).
